@@ -9,6 +9,10 @@
 (*            the missing result of a call that raised)                     *)
 (*     obs  : observation digests of all live objects AFTER the step, in    *)
 (*            creation order (the seed is object 1)                         *)
+(*     lin  : "" or the digest the SAME lineage (labels from the seed to the *)
+(*            new object) gave when it was executed alone as a chain: what  *)
+(*            a call returns depends on the receiver's own history only     *)
+(*            (PT_Sharing!Functional)                                       *)
 (*   obs0 : digest of the seed before the first call                        *)
 (* The trace spec replays the protocol: after a "new" step the store has    *)
 (* grown by exactly one object, otherwise it has not grown; in every step   *)
@@ -33,7 +37,8 @@ Walk(steps, k, prev, acc) ==
                        ELSE IF st.res # "new" THEN {<<k, st.r, "dup-raises">>}
                        ELSE IF Len(st.obs) = Len(prev) + 1 /\ st.obs[Len(st.obs)] # prev[st.r] THEN {<<k, st.r, "dup-differs">>}
                        ELSE {}
-         IN Walk(steps, k + 1, st.obs, acc \cup shape \cup same \cup moved \cup dupbad)
+             sibling == IF st.res = "new" /\ st.lin # "" /\ st.obs[Len(st.obs)] # st.lin THEN {<<k, Len(st.obs), "sibling-dependent">>} ELSE {}
+         IN Walk(steps, k + 1, st.obs, acc \cup shape \cup same \cup moved \cup dupbad \cup sibling)
 
 Verdict(e) == [tid |-> e.tid, bad |-> Walk(e.steps, 1, <<e.obs0>>, {})]
 Next == /\ i <= Len(Events)
